@@ -580,7 +580,9 @@ def run(prop, tier, seed):
                 jdump(jsonable(v.get("observed")))[:200]))
     wall = time.time() - t0
     # 6. evidence
-    cap_hit = any(len(r["viol"]) >= MAX_VIOL_PER_SHARD for r in results)
+    # a shard stopped by its violation cap or by a budget was not explored to the end: the run is not exhaustive
+    cap_hit = any(len(r["viol"]) >= MAX_VIOL_PER_SHARD for r in results) or any(
+        v.get("sub") == "runner" or v.get("subcheck") == "runner" for v in viols)
     sample_list = []
     for sub in sorted(samples):
         for c in samples[sub]:
